@@ -51,6 +51,16 @@ fn main() {
                     syn::Item::Fn(mut f) => {
                         let name = f.sig.ident.to_string();
                         if WANTED.contains(&name.as_str()) {
+                            // the harness calls these with the signatures of the pinned tree; another signature = broken tie
+                            let sig = f.sig.to_token_stream().to_string().replace(' ', "");
+                            let expected = if name == "build_query_and_schema_path" {
+                                "fnbuild_query_and_schema_path(input:&syn::DeriveInput)->Result<(PathBuf,PathBuf),syn::Error>"
+                            } else {
+                                "fnbuild_graphql_client_derive_options(input:&syn::DeriveInput,query_path:PathBuf,)->Result<GraphQLClientCodegenOptions,syn::Error>"
+                            };
+                            if sig != expected && sig != expected.replace(",)", ")") {
+                                problem = Some(format!("the signature of `{}` changed: {}", name, sig));
+                            }
                             f.vis = syn::parse_quote!(pub);
                             text.push_str(&f.to_token_stream().to_string());
                             text.push('\n');
